@@ -235,6 +235,8 @@ def shards(tier, seed):
             sh.append(("explore", "P0", pers, scope))
             sh.append(("forced", "P0", pers, scope))
     sh.append(("fixture", "P0", "v20", "all"))
+    for pers in ("v20", "v32"):
+        sh.append(("twins", "P2", pers, "all"))
     return sh
 
 
@@ -314,9 +316,52 @@ def fixture_shard(rep):
     rep.sample({"fixture_tags_compared": n, "p0_tags": ntags, "l5x_leaf_values_checked": nleaf})
 
 
+def twins_shard(rep, pers):
+    """Uploads from different controllers (and repeated uploads) in one process: each must mirror *its* controller.
+    The second controller re-uses the template ids and instance ids of the first for different types and tags."""
+    import pycomm3
+
+    def variant(k):
+        proj = projgen.build("P2", 0, reduced=True)
+        if k:
+            tds = sorted(proj.types.values(), key=lambda t: t.tid)
+            ids = [(t.tid, t.handle) for t in tds if not t.predefined]
+            user = [t for t in tds if not t.predefined]
+            for t, (tid, h) in zip(user, ids[1:] + ids[:1]):
+                t.tid, t.handle = tid, h
+            proj.types = {t.tid: t for t in tds}
+            tags = [t for t in proj.symbols if t.kind == "tag"]
+            iids = [t.instance_id for t in tags]
+            for t, i in zip(tags, iids[2:] + iids[:2]):
+                t.instance_id = i
+        return proj
+    seq = [0, 1, 0, 1]
+    for n, k in enumerate(seq):
+        proj = variant(k)
+        ctl = logix.LogixController(proj, pers)
+        t = enip.Target(ctl, keep_cip=False)
+        with net.World(t, io_budget=400000):
+            d = pycomm3.LogixDriver(f"10.0.0.{k + 1}")
+            o = call(d.open)
+            got = canon_result(d) if o == ("ok", True) else None
+            if got is not None and n == len(seq) - 1:
+                o2 = call(d.get_tag_list, "*")  # a repeated upload on the same driver
+                got = canon_result(d)
+            call(d.close)
+        want = expected(proj, pers, "all")
+        df = ["open failed: %r" % (o,)] if got is None else diff(got, want)
+        rep.case(("twins", pers, n), outcome="ok" if not df else "differs")
+        for dd in df[:3]:
+            rep.violation(f"upload/second-controller/{classify(dd) if got is not None else 'open'}", f"upload #{n + 1} in this process (controller variant {k}, {pers}): {dd}", {"cfg": ["P2", pers, "all"], "choices": [], "force": None})
+    rep.sample({"uploads_in_one_process": len(seq), "personality": pers})
+
+
 def run_shard(shard, tier, seed):
     rep = Report()
     kind, pn, pers, scope = shard
+    if kind == "twins":
+        twins_shard(rep, pers)
+        return rep
     if kind == "fixture":
         fixture_shard(rep)
         return rep
@@ -325,8 +370,9 @@ def run_shard(shard, tier, seed):
     if pn == "P0":
         image = 0
     if kind == "explore":
+        from vmc.core.explore import Diverged
+
         sc = scenario_for(pn, pers, scope, image=image)
-        check_deterministic(sc)
         canons = set()
         bound = 2 if tier == "thorough" and pn != "P4" else 1
 
@@ -334,7 +380,16 @@ def run_shard(shard, tier, seed):
             report_exec(rep, cfg, ctx, out)
             if out[2]:
                 canons.add(out[2])
-        st = explore(sc, bound, on_exec)
+        try:
+            check_deterministic(sc)
+            st = explore(sc, bound, on_exec)
+        except Diverged as e:
+            # every execution builds a fresh controller, network and driver: if the same scenario meets different choice
+            # points the second time, the library carries state from one upload / driver object to the next
+            rep.case((cfg, "replay"), outcome="not-reproducible")
+            rep.violation("upload/not-reproducible", f"{cfg}: the same upload executed twice in one process did not behave the same (state carried over between uploads): {str(e)[:160]}",
+                          {"cfg": list(cfg), "choices": [], "force": None})
+            st = {"execs": 0, "max_points": 0}
         if len(canons) > 1:
             rep.violation("upload/not-invariant", f"{cfg}: {len(canons)} different results over the explored pagination/fragmentation choices", {"cfg": list(cfg), "choices": [], "force": None})
         rep.sample({"config": cfg, "executions": st["execs"], "bound": bound, "choice_points_default_run": st["max_points"]})
